@@ -921,6 +921,37 @@ def options_do_not_change_behaviour(req):
             def __repr__(self):
                 raise ValueError("repr of an argument fails")
 
+        class FailsSecondResume(contexts.AsyncContext):
+            def __init__(self):
+                self.n = 0
+
+            def resume(self):
+                self.n += 1
+                if self.n >= 2:
+                    raise LookupError("resume fails")
+
+            def pause(self):
+                pass
+
+        @A()
+        def plain_get(kind, v):
+            # no context here: an abandoned task's with-block would be left whenever its generator happens to be collected
+            r = yield batching.DebugBatchItem(kind, v)
+            return r
+
+        @A()
+        def two_steps(v):
+            a = yield plain_get.asynq("b", v)
+            b = yield plain_get.asynq("a", v + 1)
+            return a + b
+
+        @A()
+        def killed_while_blocked():
+            # blocked on several children when the flush re-walks the tree and its context fails to resume: its children are abandoned
+            with FailsSecondResume():
+                r = yield [plain_get.asynq("a", 60), two_steps.asynq(61), two_steps.asynq(63)]
+            return r
+
         @A()
         def takes_bad_repr(x, k=None):
             r = yield get.asynq("a", 40)
@@ -932,6 +963,11 @@ def options_do_not_change_behaviour(req):
             r = yield [get.asynq("a", 1), get.asynq("a", 2), get.asynq("a", 0), get.asynq("b", 3), sync_inside.asynq(4)]
             out.append(r)
             out.append((yield takes_bad_repr.asynq(BadRepr(), k=BadRepr())))
+            try:
+                out.append((yield [killed_while_blocked.asynq(), get.asynq("b", 66)]))
+            except LookupError:
+                out.append("killed")
+            out.append((yield get.asynq("a", 67)))
             try:
                 yield [failing.asynq(5), get.asynq("b", 6), get.asynq("b", 8)]
             except KeyError as e:
